@@ -11,6 +11,11 @@ import (
 )
 
 func exprIdentName(d *ssa.DebugRef) string {
+	// the selector identifier of `x.f` is an identifier too, but it names a FIELD, not a variable: a contract
+	// that says `zone` must never be resolved to the field `entry.zone`
+	if v, ok := d.Object().(*types.Var); ok && v.IsField() {
+		return ""
+	}
 	if id, ok := d.Expr.(*ast.Ident); ok {
 		return id.Name
 	}
